@@ -791,10 +791,8 @@ func (wf *WALFileType) RequestFlush() {
 		}
 		return
 	}
-	// if there's already a queued flush, no need to queue another
-	if len(wf.txnPipe.flushChannel) > 0 {
-		return
-	}
+	// always queue an own request and wait for it: returning early because another flush
+	// is already queued would acknowledge the caller's write before it is in the WAL
 	f := make(chan struct{})
 	wf.txnPipe.flushChannel <- f
 	<-f
